@@ -202,6 +202,9 @@ class BayesianModelSampling(BayesianModelInference):
         if seed is not None:
             np.random.seed(seed)
 
+        # `None` is the documented way to say "no evidence".
+        evidence = [] if evidence is None else evidence
+
         # If no evidence is given, it is equivalent to forward sampling.
         if len(evidence) == 0:
             return self.forward_sample(size=size, include_latents=include_latents)
@@ -315,6 +318,9 @@ class BayesianModelSampling(BayesianModelInference):
         """
         if seed is not None:
             np.random.seed(seed)
+
+        # `None` is the documented way to say "no evidence".
+        evidence = [] if evidence is None else evidence
 
         # Convert evidence state names to number
         evidence = [
